@@ -14,13 +14,24 @@ EXPLANATION = (
     "length). Every attribute access on a possibly-None or wrongly-kinded object, every key lookup "
     "and every precondition of a callee (e.g. validate_default_input requires an input type) is an "
     "obligation. is_input_type/is_output_type/is_equal_type/is_type_sub_type_of are verified "
-    "against the spec relations. Reports <=> violated is decided for the loop-free rule "
-    "validate_one_of_input_object_field (ghost counter of report_error calls).")
+    "against the spec relations. Reports <=> violated (ghost counter of report_error calls): exact for "
+    "validate_one_of_input_object_field and validate_name, and per iteration for every looping rule - "
+    "validate_fields / validate_directives / validate_input_fields (name, input / output type, "
+    "required-and-deprecated, OneOf restrictions; exact for positions without a default value, a lower "
+    "bound with one), validate_enum_values, validate_union_members (non-object member or repeated "
+    "name, with the exact frame of the set of names), validate_interfaces (non-interface, itself, "
+    "repeated; else one call of each conformance check), validate_type_implements_interface (missing "
+    "field, covariance, deprecation, argument presence / type equality / extra required arguments), "
+    "validate_type_implements_ancestors, validate_root_types (lower bound) and the dispatch of "
+    "validate_types (every kind of type gets exactly its validators). GraphQLSchema.is_sub_type never "
+    "raises for any abstract type of any constructible schema.")
 UNVERIFIED = [
     "the two input-object circular-reference validators (assumed not to raise)",
     "report_error itself (assumed: appends one error) and GraphQLError construction",
     "validate_default_input -> validate_input_literal/value not raising relies on the C15 contracts",
-    "'reports <=> violated' for the rules that loop over fields/arguments/members; completeness of the rule set",
+    "the induction that sums the per-iteration report counts over a loop (each step is proved, the sum is argued); "
+    "the 'root types must differ' rule (abstracted multimap); reports made through validate_default_value for a "
+    "position that has a default (assumed contracts of validate_default_input); completeness of the rule *set*",
     "graphql_impl returning the schema errors as a result (C01)",
 ]
 TRUSTED = []
